@@ -20,19 +20,49 @@ def main():
     pid = args.pid.upper()
     mod = importlib.import_module('harness.props.' + pid.lower())
     if args.replay:
+        import json
+        d = json.load(open(args.replay))
+        if d.get('kind') == 'implementation-raised':
+            # no input to re-run: re-run the whole check, which either aborts the same way again or gives its verdict
+            print(d.get('what'), '\n', d.get('traceback', '')[-2000:])
+            ctx = common.Ctx(pid, d.get('tier', 'quick'), int(d.get('seed', 0)))
+            try:
+                mod.run(ctx)
+            except Exception as e:
+                print('VIOLATION property=%s replay=%s no-failing-input-found' % (pid, args.replay))
+                return 1
+            return 1 if ctx.violations else 0
         return mod.replay(args.replay)
     ctx = common.Ctx(pid, args.tier, seed)
     try:
         if not args.no_proof:
             common.proof_step(ctx)
         mod.run(ctx)
-    except Exception:
+    except Exception as e:
+        tb = ''.join(traceback.format_exception(type(e), e, e.__traceback__))     # includes a pool worker's remote traceback
+        # the exception chain (a pool worker's remote traceback included), segment by segment: the innermost frame of each
+        import re
+        src = os.path.join(os.environ.get('XDOCTEST_REPO', '/repo'), 'src', 'xdoctest')
+        inner = []
+        for seg in re.split(r'\n(?:The above exception was the direct cause|During handling of the above exception)[^\n]*\n', tb):
+            fl = [l.strip() for l in seg.split('\n') if l.strip().startswith('File "')]
+            if fl:
+                inner.append(fl[-1])
+        files = [f for f in inner if f.startswith('File "' + src)]
+        if files:
+            # the exception was raised by xdoctest itself on an input for which the check expects it to return: the
+            # correspondence between the model and the code no longer runs.  Not by itself a failing input.
+            print(tb[-3000:])
+            ctx.violation('implementation-raised', {'what': 'xdoctest raised %s where the check expects it to return; the harness could not continue' % type(e).__name__,
+                          'traceback': tb[-6000:], 'theorem_or_correspondence': 'correspondence harness of %s (aborted by an exception raised in %s)' % (pid, files[-1][:200])},
+                          False)
+            sys.exit(common.finish(ctx))
         # an internal error of the machinery is not a verdict: fail closed, loudly, without a VIOLATION line
-        traceback.print_exc()
+        print(tb)
         print('[%s] INTERNAL ERROR of the check (no verdict)' % pid)
         sys.exit(2)
     sys.exit(common.finish(ctx))
 
 
 if __name__ == '__main__':
-    main()
+    sys.exit(main())
